@@ -113,7 +113,26 @@ class Codec:
 # The library's own ColdObservable / HotObservable are used on TestScheduler.  Two things they cannot do are done by
 # these equivalents: delivering the relative-time-0 messages inside subscribe() ("sync" flavour), and logging on a
 # datetime clock (HistoricalScheduler).  `clock()` reads the scheduler's time in virtual-time units.
-def make_log_cold(scheduler, messages, sync0: bool, clock):
+class Meter:
+    """How many inner subscriptions are open at the same moment, at sub-instant resolution: an inner counts from its
+    subscribe() until its terminal notification is delivered or it is unsubscribed, whichever comes first."""
+
+    def __init__(self):
+        self.cur = 0
+        self.peak = 0
+
+    def open(self):
+        self.cur += 1
+        self.peak = max(self.peak, self.cur)
+        return [True]
+
+    def close(self, token):
+        if token[0]:
+            token[0] = False
+            self.cur -= 1
+
+
+def make_log_cold(scheduler, messages, sync0: bool, clock, meter=None):
     from reactivex import Observable
     from reactivex.disposable import CompositeDisposable, Disposable
 
@@ -126,20 +145,28 @@ def make_log_cold(scheduler, messages, sync0: bool, clock):
             entry = _Sub(clock())
             self.subscriptions.append(entry)
             disp = CompositeDisposable()
+            tok = meter.open() if meter else None
 
             def dispose() -> None:
                 entry.unsubscribe = clock()
+                if meter:
+                    meter.close(tok)
                 disp.dispose()
+
+            def deliver(notification):
+                if meter and notification.kind != "N":
+                    meter.close(tok)    # the inner sequence is over from here on
+                notification.accept(observer)
 
             def later(notification):
                 def action(_s, _st=None):
-                    notification.accept(observer)
+                    deliver(notification)
                     return Disposable()
                 return action
 
             for (t, is_zero, n) in messages:
                 if sync0 and is_zero:
-                    n.accept(observer)
+                    deliver(n)
                 else:
                     disp.add(scheduler.schedule_relative(t, later(n)))
             return Disposable(dispose)
@@ -147,7 +174,7 @@ def make_log_cold(scheduler, messages, sync0: bool, clock):
     return LogColdObservable()
 
 
-def make_log_hot(scheduler, messages, clock):
+def make_log_hot(scheduler, messages, clock, meter=None):
     from reactivex import Observable
     from reactivex.disposable import Disposable
 
@@ -156,10 +183,13 @@ def make_log_hot(scheduler, messages, clock):
             super().__init__()
             self.subscriptions: List[Any] = []
             self.observers: List[Any] = []
+            self.tokens: Dict[int, Any] = {}
 
             def fire(notification):
                 def action(_s, _st=None):
                     for o in self.observers[:]:
+                        if meter and notification.kind != "N" and id(o) in self.tokens:
+                            meter.close(self.tokens[id(o)])
                         notification.accept(o)
                     return Disposable()
                 return action
@@ -171,10 +201,14 @@ def make_log_hot(scheduler, messages, clock):
             self.observers.append(observer)
             entry = _Sub(clock())
             self.subscriptions.append(entry)
+            tok = meter.open() if meter else None
+            self.tokens[id(observer)] = tok
 
             def dispose() -> None:
                 self.observers.remove(observer)
                 entry.unsubscribe = clock()
+                if meter:
+                    meter.close(tok)
 
             return Disposable(dispose)
 
@@ -188,6 +222,7 @@ class _Sub:
 
 # ---- build + run -----------------------------------------------------------------------------------
 RESUB_OFFSET = 1000
+OVERLAP_OFFSET = 3
 
 
 class World:
@@ -195,8 +230,12 @@ class World:
     library's ColdObservable / HotObservable; clock = "hist": HistoricalScheduler (aware datetimes / timedeltas,
     1 virtual-time unit = 1 s) with the codec's logging sources."""
 
-    def __init__(self, clock: str):
+    def __init__(self, clock: str, own: bool = False):
+        """own: use the codec's logging sources (metered) also where the library's test sources would do"""
         from datetime import datetime, timedelta, timezone
+        self.own = own
+        self.meter = Meter()
+        self.metered = True   # stays True while every inner source created here is a metered one
         from reactivex.scheduler import HistoricalScheduler
         from reactivex.testing import TestScheduler
         self.kind = clock
@@ -216,17 +255,23 @@ class World:
         from reactivex.notification import OnCompleted, OnError, OnNext
         return [(t, x if k == "raw" else OnNext(x) if k == "N" else OnCompleted() if k == "C" else OnError(x)) for (t, k, x) in msgs]
 
-    def cold(self, msgs, sync0=False):
+    def cold(self, msgs, sync0=False, inner=False):
         from reactivex.testing.recorded import Recorded
-        if self.kind == "test" and not sync0:
+        if self.kind == "test" and not sync0 and not self.own:
+            if inner:
+                self.metered = False
             return self.s.create_cold_observable([Recorded(t, n) for t, n in self._notes(msgs)])
-        return make_log_cold(self.s, [(self.rel(t), t == 0, n) for t, n in self._notes(msgs)], sync0, self.now)
+        return make_log_cold(self.s, [(self.rel(t), t == 0, n) for t, n in self._notes(msgs)], sync0, self.now,
+                             self.meter if inner else None)
 
-    def hot(self, msgs):
+    def hot(self, msgs, inner=False):
         from reactivex.testing.recorded import Recorded
-        if self.kind == "test":
+        if self.kind == "test" and not self.own:
+            if inner:
+                self.metered = False
             return self.s.create_hot_observable([Recorded(t, n) for t, n in self._notes(msgs)])
-        return make_log_hot(self.s, [(self.abs(t), False, n) for t, n in self._notes(msgs)], self.now)
+        return make_log_hot(self.s, [(self.abs(t), False, n) for t, n in self._notes(msgs)], self.now,
+                            self.meter if inner else None)
 
     def at(self, t, fn):
         self.s.schedule_absolute(self.abs(t), lambda *_: fn())
@@ -241,15 +286,25 @@ def zero_time_complete(tl) -> bool:
 
 
 def run_scenario(scn: Dict[str, Any], *, outer: str, profile: str, inner_first: bool = True, form: str = "pipe",
-                 salt: int = 0, resub: bool = False, clock: str = "test") -> Optional[Dict[str, Any]]:
+                 salt: int = 0, resub: bool = False, clock: str = "test", own: bool = False) -> Optional[Dict[str, Any]]:
     """One real run. Returns None when the variant does not apply to the scenario.
     outer: "hot" | "cold" | "sync" - the kind of test source the outer timeline is played from.
     form:  "pipe"; merge(sources...): "factory" = reactivex.merge(...); flat_map family: "const" = the mapper argument is
            the inner observable itself (applies when the mapper table is constant), "iterable" = the mapper returns a
            list (applies when every inner is its elements at relative time 0 followed by completion).
-    resub: the same pipeline object is subscribed a first time at 200 and - long after that run is over - a second
-           time at 1200; the observation is the second subscriber's (all sources cold: it must see the same thing again).
-    clock: "test" (TestScheduler) | "hist" (HistoricalScheduler, datetime clock)."""
+    resub: two subscriptions of the same pipeline object (all sources cold, so each subscriber has its own replay of the
+           scenario and must see an allowed observation of it; the returned observation is the second subscriber's, the
+           first one's is under "first"):
+           "seq"      second subscriber 1000 units later, long after the first run is over; both dispose at the
+                      scenario's dispose instant (relative to their own subscription);
+           "overlap"  second subscriber 3 units later - the two runs interleave, subscription logs are told apart by
+                      the instants modulo 5 (all instants of a run are multiples of 5 after its subscription);
+           "seq_free2" / "overlap_free2"  the scenario has a dispose instant: only the FIRST subscriber disposes there
+                      (possibly with inners still queued), the second one is never disposed and must see an allowed
+                      observation of the same scenario without dispose.
+    clock: "test" (TestScheduler) | "hist" (HistoricalScheduler, datetime clock).
+    own:   use the codec's metered logging sources instead of the library's test sources (then the observation has
+           "peak": the largest number of inner subscriptions open at the same moment, at sub-instant resolution)."""
     import reactivex
     from reactivex import operators as ops
 
@@ -258,12 +313,16 @@ def run_scenario(scn: Dict[str, Any], *, outer: str, profile: str, inner_first: 
     op, tab, fl, outer, fmap, dsp, mc = scn["op"], scn["tab"], scn["fl"], scn["outer"], scn["fmap"], scn["dsp"], scn["mc"]
     if outer_hot and any(ev["t"] == 0 for ev in outer):
         return None  # a hot event at the very subscription instant is a tie with subscribe(); the model has it delivered
+    if resub is True:
+        resub = "seq"
     if resub and (outer_hot or fl == "hot"):
         return None
-    off = RESUB_OFFSET if resub else 0
+    if resub and resub.endswith("free2") and dsp == NEVER:
+        return None
+    off = 0 if not resub else (OVERLAP_OFFSET if resub.startswith("overlap") else RESUB_OFFSET)
     ni = len(tab)
     cod = Codec(tab, profile, salt)
-    w = World(clock)
+    w = World(clock, own)
     mapped = op in MAPPED or op in INDEXED
     logged = True       # the inner sources log their subscriptions
     if form == "iterable":
@@ -291,9 +350,9 @@ def run_scenario(scn: Dict[str, Any], *, outer: str, profile: str, inner_first: 
             if form == "iterable":
                 out[i] = [cod.elem[(i, j)] for j, ev in enumerate(tl, start=1) if ev["k"] == "N"]
             elif fl == "hot":
-                out[i] = w.hot(inner_msgs(i, tl, True))
+                out[i] = w.hot(inner_msgs(i, tl, True), inner=True)
             else:
-                out[i] = w.cold(inner_msgs(i, tl, False), sync0=(fl == "sync"))
+                out[i] = w.cold(inner_msgs(i, tl, False), sync0=(fl == "sync"), inner=True)
         return out
 
     inners: Dict[int, Any] = {}
@@ -394,43 +453,63 @@ def run_scenario(scn: Dict[str, Any], *, outer: str, profile: str, inner_first: 
         ys = ys.pipe(ops.take(scn["take"]))
 
     rec: List[Tuple[float, str, Any]] = []
+    rec1: List[Tuple[float, str, Any]] = []
     holder: Dict[str, Any] = {}
 
-    def subscribe():
-        holder["d"] = ys.subscribe(on_next=lambda v: rec.append((w.now(), "N", v)),
-                                   on_error=lambda e: rec.append((w.now(), "E", e)),
-                                   on_completed=lambda: rec.append((w.now(), "C", None)), scheduler=w.s)
+    def subscriber(into, key):
+        def go():
+            holder[key] = ys.subscribe(on_next=lambda v: into.append((w.now(), "N", v)),
+                                       on_error=lambda e: into.append((w.now(), "E", e)),
+                                       on_completed=lambda: into.append((w.now(), "C", None)), scheduler=w.s)
+        return go
 
     if resub:
-        first: Dict[str, Any] = {}
-        w.at(SUB_AT, lambda: first.update(d=ys.subscribe(on_next=lambda v: None, on_error=lambda e: None, scheduler=w.s)))
+        w.at(SUB_AT, subscriber(rec1, "d1"))
         if dsp != NEVER:
-            w.at(T(dsp), lambda: first["d"].dispose())
-    w.at(SUB_AT + off, subscribe)
-    if dsp != NEVER:
+            w.at(T(dsp), lambda: holder["d1"].dispose())
+    w.at(SUB_AT + off, subscriber(rec, "d"))
+    if dsp != NEVER and not (resub and resub.endswith("free2")):
         w.at(T(dsp) + off, lambda: holder["d"].dispose())
     escaped = None
     try:
         w.run()
     except Exception as e:  # an exception that escaped into the scheduler / the emitter
         escaped = e
-    out = []
-    unshift = lambda x: x if x == NEVER_T else x - off
-    for (t, k, v) in rec:
-        t = t - off
-        if k == "N":
-            out.append([t, "N", cod.elem_of(v)])
-        elif k == "E":
-            out.append([t, "E", cod.err_of(v)])
-        else:
-            out.append([t, "C", None])
-    subs = None
-    if logged:
-        subs = {str(i): [[s.subscribe - off, unshift(s.unsubscribe)] for s in inners[i].subscriptions if s.subscribe >= SUB_AT + off]
-                for i in sorted(inners)}
-    osub = None if xs is None else [[s.subscribe - off, unshift(s.unsubscribe)] for s in xs.subscriptions
-                                    if s.subscribe >= SUB_AT + off]
-    return {"out": out, "subs": subs, "osub": osub, "escaped": None if escaped is None else repr(escaped), "calls": calls}
+
+    def decode(records, shift):
+        res = []
+        for (t, k, v) in records:
+            t = t - shift
+            res.append([t, "N", cod.elem_of(v)] if k == "N" else [t, "E", cod.err_of(v)] if k == "E" else [t, "C", None])
+        return res
+
+    def mine(sub, second: bool) -> bool:
+        """does this logged subscription belong to the second (True) / first (False) subscriber?"""
+        if not resub:
+            return second
+        if off == RESUB_OFFSET:
+            return (sub.subscribe >= SUB_AT + off) == second
+        return ((round(sub.subscribe) - SUB_AT) % HALF == OVERLAP_OFFSET) == second
+
+    def logs(second: bool):
+        shift = off if second else 0
+        unshift = lambda x: x if x == NEVER_T else x - shift
+        sb = None
+        if logged:
+            sb = {str(i): [[s_.subscribe - shift, unshift(s_.unsubscribe)] for s_ in inners[i].subscriptions if mine(s_, second)]
+                  for i in sorted(inners)}
+        ob = None if xs is None else [[s_.subscribe - shift, unshift(s_.unsubscribe)] for s_ in xs.subscriptions if mine(s_, second)]
+        return sb, ob
+
+    out = decode(rec, off)
+    subs, osub = logs(True)
+    first = None
+    if resub:
+        s1, o1 = logs(False)
+        first = {"out": decode(rec1, 0), "subs": s1, "osub": o1, "escaped": None if escaped is None else repr(escaped)}
+    peak = w.meter.peak if (w.metered and logged and not resub) else None
+    return {"out": out, "subs": subs, "osub": osub, "escaped": None if escaped is None else repr(escaped), "calls": calls,
+            "first": first, "peak": peak}
 
 
 # ---- the model's observation in the same shape -------------------------------------------------------
@@ -451,7 +530,7 @@ def expected(scn: Dict[str, Any], obs: Dict[str, Any]) -> Dict[str, Any]:
     for s in obs["subs"]:
         subs[str(s["idx"])].append([T(s["open"]), _ct(s["close"])])
     osub = None if scn["op"] == "merge_srcs" else [[SUB_AT, _ct(obs["osub"])]]
-    return {"out": out, "subs": subs, "osub": osub}
+    return {"out": out, "subs": subs, "osub": osub, "peak": obs.get("peak")}
 
 
 def _eq_out(a, b) -> bool:
@@ -468,6 +547,8 @@ def diff(exp: Dict[str, Any], got: Dict[str, Any]) -> Optional[str]:
         return "subs"
     if exp["osub"] is not None and exp["osub"] != got["osub"]:
         return "osub"
+    if got.get("peak") is not None and exp.get("peak") is not None and exp["peak"] != got["peak"]:
+        return "peak"   # more (or fewer) inner subscriptions open at the same moment than the model has for this outcome
     return None
 
 
@@ -511,11 +592,7 @@ def witness(scn, exps, got) -> Dict[str, Any]:
     return w
 
 
-def judge(scn: Dict[str, Any], allowed: List[Dict[str, Any]], variant: Dict[str, Any]):
-    """'n/a' | None (allowed) | failure record"""
-    got = run_scenario(scn, **variant)
-    if got is None:
-        return "n/a"
+def _judge_one(scn, allowed, got, variant, who):
     exps = [expected(scn, o) for o in allowed]
     reasons = []
     for e in exps:
@@ -526,7 +603,8 @@ def judge(scn: Dict[str, Any], allowed: List[Dict[str, Any]], variant: Dict[str,
     rk = "escaped" if "escaped" in reasons else ("out" if all(r == "out" for r in reasons) else
                                                   ("subs" if "subs" in reasons else reasons[0]))
     rec = {"engine": "opsmerge", "op": scn["op"], "mc": scn["mc"], "fl": scn["fl"], "reason_kind": rk, "scn": scn,
-           "expected": allowed, "expected_decoded": exps[:4], "observed": got, "variant": variant,
+           "expected": allowed, "expected_decoded": exps[:4], "observed": {k: v for k, v in got.items() if k != "first"},
+           "variant": variant, "subscriber": who,
            "has_fault": 0 in scn["fmap"], "disposed": scn["dsp"] != NEVER, "take": scn.get("take", 0)}
     rec.update(witness(scn, exps, got))
     if variant.get("outer") == "sync" and rec["subscribed_after_end"] and rec["ended_at_subscription_instant"]:
@@ -538,10 +616,37 @@ def judge(scn: Dict[str, Any], allowed: List[Dict[str, Any]], variant: Dict[str,
     return rec
 
 
+def judge(scn: Dict[str, Any], allowed: List[Dict[str, Any]], variant: Dict[str, Any], allowed_free=None):
+    """'n/a' | None (allowed) | 'tolerated' | failure record.
+    allowed_free: the allowed observations of the same scenario without dispose (needed by the *_free2 protocols, where
+    the second subscriber is never disposed)."""
+    mode = variant.get("resub")
+    free2 = isinstance(mode, str) and mode.endswith("free2")
+    if free2 and allowed_free is None:
+        return "n/a"
+    got = run_scenario(scn, **variant)
+    if got is None:
+        return "n/a"
+    verdicts = []
+    if got.get("first") is not None:
+        verdicts.append(_judge_one(scn, allowed, got["first"], variant, "first"))
+    if free2:
+        scn2 = dict(scn, dsp=NEVER)
+        verdicts.append(_judge_one(scn2, allowed_free, got, variant, "second (never disposed)"))
+    else:
+        verdicts.append(_judge_one(scn, allowed, got, variant, "second" if got.get("first") is not None else "only"))
+    for v in verdicts:
+        if isinstance(v, dict):
+            # what --replay needs to repeat exactly this run (the record's own scn/expected describe the failing subscriber)
+            v["replay"] = {"scn": scn, "expected": allowed, "expected_free": allowed_free, "variant": variant}
+            return v
+    return "tolerated" if "tolerated" in verdicts else None
+
+
 # ---- drivers shared by C11 / C12 -------------------------------------------------------------------
-BASE = dict(MCs={1, 2}, Tabs={"plain"}, Flavours={"cold"}, MaxOuter=3, OTimes={1, 2, 3}, OTermTimes={1, 2, 3, 5},
+BASE = dict(Ops=set(), MCs={1, 2}, Tabs={"plain"}, Flavours={"cold"}, MaxOuter=3, OTimes={1, 2, 3}, OTermTimes={1, 2, 3, 5},
             OTerms={"C", "E", "U"}, DspTicks=set(), Takes=set(), Faults=False, FAll=False, RG=True, GenN=2, GenLen=2, GenTimes={0, 1},
-            Lazy=False)
+            Lazy=False, Slices={"cfg"})
 
 
 def export_runs(ck, runs, timeout=1500, par=4, named=False):
@@ -575,38 +680,61 @@ def export_runs(ck, runs, timeout=1500, par=4, named=False):
     return lines
 
 
-def variants_for(scn, profiles=("plain",)):
+def variants_for(scn, profiles=("plain",), light=False):
+    """The real runs made for one scenario. light (thorough tier, where scenarios are many): one base run plus the
+    special protocols on a hash-selected fraction."""
     vs = []
     s = len(json.dumps(scn, sort_keys=True))
     zero = any(ev["t"] == 0 for ev in scn["outer"])
+    prof = lambda n: profiles[(s + n) % len(profiles)]
     if scn["op"] == "merge_srcs":
-        return [dict(outer="cold", profile=profiles[s % len(profiles)], inner_first=True, form="pipe", salt=s % 7),
-                dict(outer="cold", profile=profiles[(s + 1) % len(profiles)], inner_first=True, form="factory", salt=s % 5,
-                     resub=(scn["fl"] != "hot" and s % 2 == 0))]
-    for n, ok in enumerate(("sync", "cold") if zero else ("hot", "cold")):
-        prof = profiles[(s + n) % len(profiles)]
+        vs = [dict(outer="cold", profile=prof(0), inner_first=True, form="pipe", salt=s % 7),
+              dict(outer="cold", profile=prof(1), inner_first=True, form="factory", salt=s % 5,
+                   resub=("seq" if scn["fl"] != "hot" and s % 2 == 0 else False))]
+        return vs[s % 2:][:1] if light else vs
+    kinds = ("sync", "cold") if zero else ("hot", "cold")
+    if light:
+        kinds = kinds[s % 2:][:1]
+    for n, ok in enumerate(kinds):
         if scn["fl"] == "hot":
-            vs.append(dict(outer=ok, profile=prof, inner_first=True, form="pipe", salt=s % 7))
-            vs.append(dict(outer=ok, profile=prof, inner_first=False, form="pipe", salt=s % 5))
+            vs.append(dict(outer=ok, profile=prof(n), inner_first=True, form="pipe", salt=s % 7))
+            if not light or s % 3 == 0:
+                vs.append(dict(outer=ok, profile=prof(n), inner_first=False, form="pipe", salt=s % 5))
         else:
-            vs.append(dict(outer=ok, profile=prof, inner_first=bool((s + n) % 2), form="pipe", salt=s % 7))
-    if scn["fl"] != "hot" and s % 2 == 0:
-        vs.append(dict(outer="cold", profile=profiles[s % len(profiles)], inner_first=True, form="pipe", salt=s % 3, resub=True))
-    if s % 3 == 0:   # the same on a datetime clock
-        vs.append(dict(outer=("cold" if zero or s % 2 else "hot"), profile=profiles[s % len(profiles)], inner_first=bool(s % 2),
+            vs.append(dict(outer=ok, profile=prof(n), inner_first=bool((s + n) % 2), form="pipe", salt=s % 7))
+    k = 4 if light else 1
+    if scn["fl"] != "sync" and (not light or s % 3 == 2):
+        # metered sources: how many inner subscriptions are open at the same moment (sync flavour is always metered)
+        vs.append(dict(outer=kinds[-1], profile=prof(2), inner_first=bool(s % 2), form="pipe", salt=s % 3, own=True))
+    if scn["fl"] != "hot":
+        # a second subscription of the same pipeline object
+        if s % (2 * k) == 0:
+            vs.append(dict(outer="cold", profile=prof(0), inner_first=True, form="pipe", salt=s % 3, resub="seq"))
+        if s % (2 * k) == 1 or scn["op"] in ("merge_mc", "concat_map"):
+            if not light or s % 3 == 1:
+                vs.append(dict(outer="cold", profile=prof(1), inner_first=True, form="pipe", salt=s % 3, resub="overlap"))
+        if scn["dsp"] != NEVER and (not light or s % 2 == 0):
+            # the first subscriber disposes (maybe with inners queued), the second one runs on
+            vs.append(dict(outer="cold", profile=prof(0), inner_first=True, form="pipe", salt=s % 3,
+                           resub=("overlap_free2" if s % 2 else "seq_free2")))
+            if scn["op"] in ("merge_mc", "concat_map") and not light:
+                vs.append(dict(outer="cold", profile=prof(0), inner_first=True, form="pipe", salt=s % 3,
+                               resub=("seq_free2" if s % 2 else "overlap_free2")))
+    if s % (3 * k) == 0:   # the same on a datetime clock
+        vs.append(dict(outer=("cold" if zero or s % 2 else "hot"), profile=prof(0), inner_first=bool(s % 2),
                        form="pipe", salt=s % 3, clock="hist"))
     if scn["op"] in MAPPED or scn["op"] in INDEXED:
         # other call forms of the flat_map family (run_scenario says "n/a" where they do not apply)
-        vs.append(dict(outer="cold", profile=profiles[s % len(profiles)], inner_first=True, form="iterable", salt=s % 3))
-        vs.append(dict(outer="hot", profile=profiles[s % len(profiles)], inner_first=True, form="const", salt=s % 3))
+        vs.append(dict(outer="cold", profile=prof(0), inner_first=True, form="iterable", salt=s % 3))
+        vs.append(dict(outer="hot", profile=prof(0), inner_first=True, form="const", salt=s % 3))
     return vs
 
 
 def _job(args):
-    scn, allowed, vs = args
+    scn, allowed, vs, allowed_free = args
     n, fails = 0, []
     for v in vs:
-        f = judge(scn, allowed, v)
+        f = judge(scn, allowed, v, allowed_free)
         if f == "n/a":
             continue
         n += 1
@@ -617,9 +745,24 @@ def _job(args):
     return n, fails
 
 
-def replay_groups(ck, groups, profiles=("plain",), procs=8):
+def make_jobs(groups, profiles=("plain",), light=False):
+    """pairs every scenario that has a dispose instant with the allowed set of its twin without dispose"""
+    free = {}
+    for scn, allowed in groups:
+        if scn["dsp"] == NEVER:
+            free[json.dumps(scn, sort_keys=True)] = allowed
+    jobs = []
+    for scn, allowed in groups:
+        twin = None
+        if scn["dsp"] != NEVER:
+            twin = free.get(json.dumps(dict(scn, dsp=NEVER), sort_keys=True))
+        jobs.append((scn, allowed, variants_for(scn, profiles, light), twin))
+    return jobs
+
+
+def replay_groups(ck, groups, profiles=("plain",), procs=8, light=False):
     from harness import core
-    jobs = [(scn, allowed, variants_for(scn, profiles)) for scn, allowed in groups]
+    jobs = make_jobs(groups, profiles, light)
     total = 0
     tolerated = 0
     for n, fails in core.parallel_map(_job, jobs, procs=procs, chunk=100):
@@ -697,8 +840,11 @@ def nontrivial(scn, allowed) -> bool:
 
 
 def generic_replay(rec) -> int:
-    f = judge(rec["scn"], rec["expected"], rec["variant"])
+    r = rec.get("replay") or {"scn": rec["scn"], "expected": rec["expected"], "expected_free": None, "variant": rec["variant"]}
+    f = judge(r["scn"], r["expected"], r["variant"], r.get("expected_free"))
     if f == "tolerated":
         f = None
+    if f:
+        f.pop("replay", None)
     print(json.dumps(f, default=str)[:3000] if f else "replay: observation allowed by the spec")
     return 1 if f else 0
